@@ -172,6 +172,14 @@ def random_pattern(typ: str, rnd: random.Random) -> str:
 def random_value(typ: str, rnd: random.Random, cals, year0: float = 0.08):
     from pyoda_time import AnnualDate, Duration, Instant, LocalDate, LocalTime, Offset
 
+    def arrived_at_midnight():
+        # a time of day that is the result of arithmetic landing exactly on midnight (or just around it)
+        x = rnd.randrange(1, NPD)
+        t = LocalTime.from_nanoseconds_since_midnight(x)
+        k = NPD - x + rnd.choice([0, 0, 0, 1, -1])
+        return rnd.choice([lambda: t.plus_nanoseconds(k), lambda: t.plus_hours(24).plus_nanoseconds(k), lambda: LocalTime(12, 0).plus_hours(12),
+                           lambda: LocalTime(23, 59, 59).plus_seconds(1), lambda: LocalTime.midnight.plus_hours(24)])()
+
     def nod():
         c = rnd.random()
         if c < 0.4:
@@ -185,13 +193,20 @@ def random_value(typ: str, rnd: random.Random, cals, year0: float = 0.08):
     if typ == "Offset":
         return Offset.from_seconds(rnd.choice([0, 3600, -3600, 19800, 64800, -64800, 1, -1, 59, -3599, rnd.randint(-64800, 64800)]))
     if typ == "LocalTime":
+        if rnd.random() < 0.06:
+            try:
+                return arrived_at_midnight()
+            except Exception:  # noqa: BLE001
+                pass
         return LocalTime.from_nanoseconds_since_midnight(nod())
     if typ == "LocalDate":
         cal = rnd.choice(cals)
         c = rnd.random()
         if c > 1 - year0:
             # around (ISO) year 0: small and negative absolute years
-            return LocalDate._ctor(days_since_epoch=min(max(-719528 + rnd.randint(-45000, 45000), cal._min_days), cal._max_days), calendar=cal)
+            # (a third of them within a year or two of year 0 itself: 1 BCE is absolute year 0, where eras and signs change)
+            span = rnd.choice([(-45000, 45000), (-45000, 45000), (-400, 800)])
+            return LocalDate._ctor(days_since_epoch=min(max(-719528 + rnd.randint(*span), cal._min_days), cal._max_days), calendar=cal)
         d = cal._min_days + rnd.randint(0, 400) if c < 0.1 else cal._max_days - rnd.randint(0, 400) if c < 0.2 else \
             rnd.randint(max(cal._min_days, -30000), min(cal._max_days, 60000)) if c < 0.7 else rnd.randint(cal._min_days, cal._max_days)
         return LocalDate._ctor(days_since_epoch=d, calendar=cal)
@@ -199,11 +214,19 @@ def random_value(typ: str, rnd: random.Random, cals, year0: float = 0.08):
         return random_value("LocalDate", rnd, cals, year0).at(LocalTime.from_nanoseconds_since_midnight(nod()))
     if typ == "Instant":
         c = rnd.random()
-        day = -719528 + rnd.randint(-45000, 45000) if c > 1 - year0 else rnd.choice([-4371222, 2932896]) if c < 0.1 else \
+        day = -719528 + rnd.randint(*rnd.choice([(-45000, 45000), (-45000, 45000), (-400, 800)])) if c > 1 - year0 else rnd.choice([-4371222, 2932896]) if c < 0.1 else \
             rnd.randint(-30000, 60000) if c < 0.55 else rnd.randint(-4371222, 2932896)
         return Instant._ctor(days=day, nano_of_day=nod())
     if typ == "Duration":
         c = rnd.random()
+        if c > 0.92:
+            # a value that is the result of arithmetic: two parts whose times of day add up to exactly one day (or to anything)
+            x = rnd.randrange(NPD)
+            y = NPD - x if rnd.random() < 0.7 else rnd.randrange(NPD)
+            try:
+                return Duration._ctor(days=rnd.randint(-5, 5), nano_of_day=x) + Duration._ctor(days=rnd.randint(-5, 5), nano_of_day=y % NPD)
+            except Exception:  # noqa: BLE001
+                pass
         ns = rnd.choice([0, 1, -1, NPD, -NPD, NPD - 1, -NPD + 1, 3600 * 10**9, -1000]) if c < 0.3 else rnd.randint(-10**16, 10**16) if c < 0.6 else \
             rnd.choice([-1, 1]) * (rnd.randrange(10**7) * 10**9 + rnd.randrange(10 ** (k := rnd.randint(1, 9))) * 10 ** (9 - k)) if c < 0.8 else \
             rnd.randint(Duration._MIN_NANOSECONDS, Duration._MAX_NANOSECONDS)
